@@ -13,6 +13,9 @@ A member is always built fresh: ``merge`` cannibalises its argument.
 """
 import os
 
+import numpy as np
+from scipy import sparse
+
 from mcverif import env
 
 KINDS = ("ISOTXS", "GAMISO", "PMATRX")
@@ -29,31 +32,51 @@ COLLECTION_ATTRS = (
 
 
 def cv(v):
-    import numpy as np
-    from scipy import sparse
-
-    if v is None or isinstance(v, (bool, int, float, str)):
-        if isinstance(v, str):
-            return str(v)
+    """Exact canonical value. Arrays: shape + dtype + raw bytes (hex); sparse matrices as dense."""
+    if v is None or isinstance(v, (bool, int, float)):
         return v
+    if isinstance(v, str):
+        return str(v)
     if isinstance(v, np.generic):
         return cv(v.item())
     if isinstance(v, np.ndarray):
-        return {"nd": list(v.shape), "v": cv(v.tolist())}
+        if v.dtype.kind not in "fiub":
+            return {"nd": list(v.shape), "obj": cv(v.tolist())}
+        return {"nd": list(v.shape), "dt": v.dtype.str, "hex": np.ascontiguousarray(v).tobytes().hex()}
     if sparse.issparse(v):
-        return {"sp": list(v.shape), "v": cv(v.toarray().tolist())}
+        return {"sp": 1, "a": cv(v.toarray())}
     if isinstance(v, (list, tuple)):
         return [cv(x) for x in v]
     if isinstance(v, dict):
-        return {"map": sorted(([cv(list(k) if isinstance(k, tuple) else k), cv(x)] for k, x in v.items()), key=repr)}
+        if v and all(isinstance(k, tuple) and isinstance(x, (int, np.integer)) and not isinstance(x, bool) for k, x in v.items()):
+            # jband / jj tables: (group, block) -> int
+            return {"imap": cv(np.array(sorted(list(k) + [int(x)] for k, x in v.items()), dtype=np.int64))}
+        try:
+            items = sorted(v.items())
+        except TypeError:
+            items = sorted(v.items(), key=repr)
+        return {"map": [[cv(list(k) if isinstance(k, tuple) else k), cv(x)] for k, x in items]}
     return {"repr": repr(v)}
 
 
 def flat(c):
-    """canonical array value -> nested python list (for the arithmetic oracles)."""
-    if isinstance(c, dict) and "v" in c:
-        return c["v"]
+    """canonical array value -> numpy array / python list (for the arithmetic oracles)."""
+    if isinstance(c, dict):
+        if "sp" in c:
+            return flat(c["a"])
+        if "hex" in c:
+            return np.frombuffer(bytes.fromhex(c["hex"]), dtype=np.dtype(c["dt"])).reshape(c["nd"]).tolist()
+        if "obj" in c:
+            return c["obj"]
     return c
+
+
+def show(c):
+    """short human-readable form of a canonical value."""
+    try:
+        return short(flat(c)) if isinstance(c, dict) and ("hex" in c or "sp" in c) else short(c)
+    except Exception:  # noqa: BLE001
+        return short(c)
 
 
 # ---------------------------------------------------------------------------------------------
@@ -69,10 +92,10 @@ LABEL_INDEX = {"U235AA": 1, "U235AB": 2, "FE56AA": 3, "FE56AB": 4, "NA23AA": 5, 
 
 # per base nuclide: which optional reactions / scatter blocks exist (the readers branch on each)
 TRAITS = {
-    "U235": dict(fis=1, chi=1, nalph=0, np=0, n2n=1, nd=0, nt=0, ltot=2, ltrn=1, ords=[1, 1, 1, 1], amass=235.0439453125, efiss=2.0 ** -35, ecapt=2.0 ** -40),
-    "FE56": dict(fis=0, chi=0, nalph=1, np=1, n2n=0, nd=0, nt=0, ltot=1, ltrn=1, ords=[1, 0, 1, 0], amass=55.9375, efiss=0.0, ecapt=1.25 * 2.0 ** -40),
-    "NA23": dict(fis=0, chi=0, nalph=0, np=0, n2n=1, nd=1, nt=0, ltot=1, ltrn=2, ords=[1, 1, 0, 0], amass=22.984375, efiss=0.0, ecapt=1.125 * 2.0 ** -40),
-    "DMP1": dict(fis=0, chi=0, nalph=0, np=0, n2n=0, nd=0, nt=1, ltot=1, ltrn=1, ords=[1, 0, 0, 0], amass=10.0, efiss=0.0, ecapt=0.0),
+    "U235": dict(fis=1, chi=1, nalph=0, np=0, n2n=1, nd=0, nt=0, ltot=2, ltrn=2, ords=[1, 1, 1, 1], amass=235.0439453125, efiss=2.0 ** -35, ecapt=2.0 ** -40),
+    "FE56": dict(fis=0, chi=0, nalph=1, np=1, n2n=0, nd=0, nt=0, ltot=2, ltrn=2, ords=[1, 0, 1, 0], amass=55.9375, efiss=0.0, ecapt=1.25 * 2.0 ** -40),
+    "NA23": dict(fis=0, chi=0, nalph=0, np=0, n2n=1, nd=1, nt=0, ltot=2, ltrn=2, ords=[1, 1, 0, 0], amass=22.984375, efiss=0.0, ecapt=1.125 * 2.0 ** -40),
+    "DMP1": dict(fis=0, chi=0, nalph=0, np=0, n2n=0, nd=0, nt=1, ltot=2, ltrn=2, ords=[1, 0, 0, 0], amass=10.0, efiss=0.0, ecapt=0.0),
 }
 SCAT_FLAGS = [100, 101, 200, 300]  # elastic P0, elastic P1, inelastic, n2n
 SCAT_ATTR = ["elasticScatter", "elasticScatter1stOrder", "inelasticScatter", "n2nScatter"]
@@ -89,11 +112,10 @@ GEN_POOL = [
     {"name": "isoA3", "kinds": ["ISOTXS"], "n": "A2", "labels": ["NA23AA", "FE56AA"]},  # overlaps isoA1 (2nd label) and isoA2 (1st)
     {"name": "gamA2", "kinds": ["GAMISO"], "g": "A2", "labels": ["FE56AB", "U235AA"]},  # overlaps gamA1 on its 2nd label
     {"name": "pmxB", "kinds": ["PMATRX"], "n": "B2", "g": "A2", "labels": ["DMP1AB"]},  # other neutron bounds, carries dose factors
+    {"name": "pmxGB", "kinds": ["PMATRX"], "n": "A2", "g": "B2", "labels": ["NA23AB"]},  # other gamma bounds
+    {"name": "isoA4", "kinds": ["ISOTXS"], "n": "A2", "labels": ["DMP1AB", "NA23AB"], "filemeta": {"fileId": 1}},  # other file-wide metadata
 ]
-# deeper tier only: a gamma-structure conflict carried by a PMATRX, and a 3-group family
-GEN_POOL_THOROUGH_EXTRA = [
-    {"name": "pmxGB", "kinds": ["PMATRX"], "n": "A2", "g": "B2", "labels": ["NA23AB"]},
-]
+GEN_POOL_THOROUGH_EXTRA = []
 # libraries for the macroscopic part: merge sequences over these give every kind for every nuclide
 MACRO_MEMBERS = {
     "gen1": [
@@ -319,7 +341,9 @@ def build_generated(spec):
         properties.lockImmutableProperties(lib)
     for kind in kinds:
         md = getattr(lib, kind.lower() + "Metadata")
-        for k, v in gen_file_meta(kind, spec).items():
+        fm = gen_file_meta(kind, spec)
+        fm.update(spec.get("filemeta", {}))
+        for k, v in fm.items():
             md[k] = np.array(v) if isinstance(v, list) else v
         md.fileNames.append(spec["name"] + "." + kind.lower())
     for label in spec["labels"]:
@@ -375,7 +399,8 @@ def _prop(lib, name):
 
 
 def _meta(md):
-    return {str(k): cv(v) for k, v in md.items()}
+    # md[k] answers None for an absent key, so a key holding None is indistinguishable from no key
+    return {str(k): cv(v) for k, v in md.items() if v is not None}
 
 
 def _collection(coll):
@@ -477,34 +502,39 @@ def model_conflict(T, M):
 
 
 def model_merge(T, M):
-    """Union (assumes model_conflict is None). Pure data in, pure data out."""
-    import copy
-
-    R = copy.deepcopy(T)
-    for p in PROPS:
-        if R["props"][p] is None:
-            R["props"][p] = copy.deepcopy(M["props"][p])
+    """Union (assumes model_conflict is None). Pure data in, pure data out; leaf values are shared,
+    never modified."""
+    R = dict(T)
+    R["props"] = {p: (T["props"][p] if T["props"][p] is not None else M["props"][p]) for p in PROPS}
     if R["neutronVelocity"] is None:  # documented: the first neutron velocity is kept
-        R["neutronVelocity"] = copy.deepcopy(M["neutronVelocity"])
+        R["neutronVelocity"] = M["neutronVelocity"]
     nb, gb = R["props"]["neutronEnergyUpperBounds"], R["props"]["gammaEnergyUpperBounds"]
-    R["numGroups"] = len(flat(nb)) if nb is not None else 0
-    R["numGroupsGamma"] = len(flat(gb)) if gb is not None else 0
+    R["numGroups"] = nb["nd"][0] if nb is not None else 0
+    R["numGroupsGamma"] = gb["nd"][0] if gb is not None else 0
+    R["meta"], R["files"] = {}, {}
     for kind in KINDS:
-        a, b = R["meta"][kind], M["meta"][kind]
+        a, b = T["meta"][kind], M["meta"][kind]
         if a and b:
-            if not a.get("libraryLabel"):
+            a = dict(a)
+            if not a.get("libraryLabel") and b.get("libraryLabel"):
                 a["libraryLabel"] = b.get("libraryLabel")
-        elif b:
-            R["meta"][kind] = copy.deepcopy(b)
-        R["files"][kind] = R["files"][kind] + list(M["files"][kind])
+            R["meta"][kind] = a
+        else:
+            R["meta"][kind] = dict(a or b)
+        R["files"][kind] = list(T["files"][kind]) + list(M["files"][kind])
+    R["labels"] = list(T["labels"])
+    R["nuc"] = dict(T["nuc"])
     for label in M["labels"]:
         if label not in R["nuc"]:
             R["labels"].append(label)
-            R["nuc"][label] = copy.deepcopy(M["nuc"][label])
+            R["nuc"][label] = M["nuc"][label]
         else:
+            n = dict(R["nuc"][label])
             for kind in KINDS:
                 if M["nuc"][label][kind] is not None:
-                    R["nuc"][label][kind] = copy.deepcopy(M["nuc"][label][kind])
+                    n[kind] = M["nuc"][label][kind]
+            R["nuc"][label] = n
+    R["foreign_container"] = []
     return R
 
 
@@ -512,6 +542,8 @@ def first_diff(a, b, path=""):
     """First differing path between two JSON-ish values, as (path, a, b) or None."""
     if type(a) is not type(b) and not (isinstance(a, (int, float)) and isinstance(b, (int, float)) and not isinstance(a, bool) and not isinstance(b, bool)):
         return (path, a, b)
+    if isinstance(a, (dict, list)) and a == b:
+        return None
     if isinstance(a, dict):
         for k in sorted(set(a) | set(b), key=str):
             if k not in a or k not in b:
